@@ -3,10 +3,12 @@ package c08
 // Sub-check (c): no request, well-formed or not, makes the database panic or hang.
 
 import (
+	"bytes"
 	"context"
 	"encoding/json"
 	"fmt"
 	"os"
+	"os/exec"
 	"regexp"
 	"runtime"
 	"runtime/debug"
@@ -47,7 +49,10 @@ type fixture struct {
 	n      *hx.Node
 	docIDs []string // Users, including the deleted one
 	books  []string
-	cids   []string
+	cids   []string // commits that existed before the delete
+	// delCids are the commits the delete added (document-level delete commit and the collection-level
+	// commit above it): a time-travel read at them replays the delete.
+	delCids []string
 }
 
 func nodeIdentity() identity.Identity {
@@ -106,19 +111,27 @@ func newFixture() *fixture {
 	must(fmt.Sprintf(`mutation { update_Users(docID: %q, input: {i: 5, s: "c"}) { k } }`, fx.docIDs[0]))
 	must(fmt.Sprintf(`mutation { update_Users(docID: %q, input: {i: 6}) { k } }`, fx.docIDs[0]))
 	must(fmt.Sprintf(`mutation { update_Users(docID: %q, input: {f: 3.0, j: {z: null}}) { k } }`, fx.docIDs[1]))
-	must(fmt.Sprintf(`mutation { delete_Users(docID: %q) { k } }`, fx.docIDs[4]))
 	r = must(`query { commits { cid signature { type } } }`)
 	signed := 0
+	before := map[string]bool{}
 	for _, row := range r.Rows("commits") {
 		c, _ := row["cid"].(string)
 		fx.cids = append(fx.cids, c)
+		before[c] = true
 		if row["signature"] != nil {
 			signed++
 		}
 	}
-	if signed == 0 || len(fx.cids) < 10 {
+	must(fmt.Sprintf(`mutation { delete_Users(docID: %q) { k } }`, fx.docIDs[4]))
+	r = must(`query { commits { cid signature { type } } }`)
+	for _, row := range r.Rows("commits") {
+		if c, _ := row["cid"].(string); !before[c] {
+			fx.delCids = append(fx.delCids, c)
+		}
+	}
+	if signed == 0 || len(fx.cids) < 10 || len(fx.delCids) == 0 {
 		n.Close()
-		hx.Harnessf("fixture has %d commits, %d signed: expected signed commits", len(fx.cids), signed)
+		hx.Harnessf("fixture has %d commits, %d signed, %d from the delete: expected signed commits and a delete commit", len(fx.cids), signed, len(fx.delCids))
 	}
 	return fx
 }
@@ -147,6 +160,13 @@ func dropSharedFixture() {
 	}
 }
 
+// abandonSharedFixture forgets the shared node without closing it (after a hang Close may block too).
+func abandonSharedFixture() {
+	sharedMu.Lock()
+	defer sharedMu.Unlock()
+	shared = nil
+}
+
 // Mut is one mutation of the token list of a request string.
 type Mut struct {
 	Kind string `json:"kind"` // del dup swap name value brace
@@ -168,6 +188,8 @@ type ReqCase struct {
 	Sig bool `json:"sig,omitempty"`
 	// Observe runs the request even if it is the trigger of the listed hang.
 	Observe bool `json:"observe,omitempty"`
+	// Avoid: cids added by the delete are not used (switch for the time-travel-at-delete hang).
+	Avoid bool `json:"avoid,omitempty"`
 }
 
 type params struct {
@@ -228,12 +250,18 @@ func (fx *fixture) docID(p *params) string {
 	}
 }
 
-func (fx *fixture) cid(p *params) string {
+func (fx *fixture) cid(p *params, avoidDelete bool) string {
 	switch p.next(10) {
 	case 0:
 		return "bafybeid57gpbwi4i6bg7g35hhhhhhhhhhhhhhhhhhhhhhhdoesnotexist"
 	case 1:
 		return "notacid"
+	case 2, 3:
+		c := fx.delCids[p.next(len(fx.delCids))]
+		if avoidDelete && rec.IsKnown(sigDeleteHang) {
+			c = fx.cids[p.next(len(fx.cids))]
+		}
+		return c
 	default:
 		return fx.cids[p.next(len(fx.cids))]
 	}
@@ -297,7 +325,7 @@ func (c ReqCase) base(fx *fixture) string {
 			args = append(args, fmt.Sprintf("docID: %q", fx.docID(p)))
 		}
 		if p.chance(30) {
-			args = append(args, fmt.Sprintf("cid: %q", fx.cid(p)))
+			args = append(args, fmt.Sprintf("cid: %q", fx.cid(p, c.Avoid)))
 		}
 		if p.chance(30) {
 			args = append(args, "fieldName: "+p.pick(`"i"`, `"_C"`, `"s"`, `"nope"`, `null`, `"books"`))
@@ -337,7 +365,7 @@ func (c ReqCase) base(fx *fixture) string {
 		}
 		return "query { " + root + " { k _version { " + commitFields(p, c.Sig) + " } } }"
 	case "timetravel":
-		args := []string{fmt.Sprintf("cid: %q", fx.cid(p))}
+		args := []string{fmt.Sprintf("cid: %q", fx.cid(p, c.Avoid))}
 		if p.chance(60) {
 			args = append(args, fmt.Sprintf("docID: %q", fx.docID(p)))
 		}
@@ -347,7 +375,7 @@ func (c ReqCase) base(fx *fixture) string {
 		sel := p.pick("k s i", "k _deleted _docID", "k _version { "+commitFields(p, c.Sig)+" }", "_docID s i f b t j a", "k books { title }")
 		return "query { " + p.pick("Users", "Users", "Book") + "(" + strings.Join(args, ", ") + ") { " + strings.Replace(sel, "books { title }", p.pick("books { title }", "k"), 1) + " } }"
 	case "explain":
-		inner := ReqCase{Tpl: p.pick("eval", "commits", "version", "timetravel", "relation", "array", "mutation"), P: c.P[min(len(c.P), 3):], Q: c.Q, Sig: c.Sig}
+		inner := ReqCase{Tpl: p.pick("eval", "commits", "version", "timetravel", "relation", "array", "mutation"), P: c.P[min(len(c.P), 3):], Q: c.Q, Sig: c.Sig, Avoid: c.Avoid}
 		s := inner.base(fx)
 		kind := p.pick("@explain", "@explain(type: simple)", "@explain(type: execute)", "@explain(type: debug)", "@explain(type: predict)")
 		for _, op := range []string{"query", "mutation"} {
@@ -618,16 +646,51 @@ func execGuarded(fx *fixture, q string) (hx.Result, *hx.Failure) {
 			}
 		}
 	}()
-	select {
-	case o := <-ch:
+	finish := func(o out) (hx.Result, *hx.Failure) {
 		if o.res.Panic != "" {
-			return o.res, hx.Failf("C08/panic/"+hx.PanicSite(o.res.Panic), "request %q panicked: %.2500s", q, o.res.Panic)
+			return o.res, hx.Failf(panicSig(o.res.Panic), "request %q panicked: %.2500s", q, o.res.Panic)
 		}
 		return o.res, nil
-	case <-time.After(hangAfter):
+	}
+	// Wait. Every 2 s look at the request goroutine: three consecutive looks that find it blocked
+	// (mutex/channel wait) in the same place are a hang (nothing else runs on this node that could
+	// release it); a request that is still computing gets hangAfter.
+	deadline := time.After(hangAfter)
+	tick := time.NewTicker(2 * time.Second)
+	defer tick.Stop()
+	lastBlocked, sameBlocked := "", 0
+wait:
+	for {
+		select {
+		case o := <-ch:
+			return finish(o)
+		case <-tick.C:
+			st, fns, dump := blockedState()
+			if st != "blocked" {
+				lastBlocked, sameBlocked = "", 0
+				continue
+			}
+			if fns == lastBlocked {
+				sameBlocked++
+			} else {
+				lastBlocked, sameBlocked = fns, 1
+			}
+			if sameBlocked >= 3 {
+				cancel()
+				ended := false
+				select {
+				case <-ch:
+					ended = true
+				case <-time.After(2 * time.Second):
+				}
+				return hx.Result{}, hx.Failf("C08/hang/blocked/"+hx.PanicSite(dump), "request %q has not returned after %d s and its goroutine stays blocked in the same place (ended after cancel: %v): %.3000s", q, 2*sameBlocked, ended, dump)
+			}
+		case <-deadline:
+			break wait
+		}
 	}
 	// Not returned. Take two snapshots of the request goroutine: blocked (channel/mutex wait) is a hang;
-	// a stack of more than 100 000 frames that keeps growing through the same function is unbounded recursion (also a hang: it ends
+	// a stack of more than 50 000 frames that keeps growing through the same function is unbounded recursion (also a hang: it ends
 	// in a fatal stack overflow of the whole process); anything else still running is inconclusive.
 	snap := func() (state string, elided int, site string, dump string) {
 		buf := make([]byte, 1<<22)
@@ -687,11 +750,57 @@ func execGuarded(fx *fixture, q string) (hx.Result, *hx.Failure) {
 		hx.Harnessf("request %q has not returned after %s and its goroutine was not found", q, hangAfter)
 	case st1 == "blocked" && st2 == "blocked":
 		return hx.Result{}, hx.Failf("C08/hang/blocked/"+site1, "request %q has not returned after %s and its goroutine is blocked (ended after cancel: %v): %.3000s", q, hangAfter, ended, dump)
-	case el1 > 100000 && el2 > el1+1000 && site1 == site2:
+	case el1 > 50000 && el2 > el1+1000 && site1 == site2:
 		return hx.Result{}, hx.Failf("C08/hang/unbounded-recursion/"+site1, "request %q has not returned after %s: its stack grows without bound through %s (%d, then %d frames elided; ended after cancel: %v): %.2000s", q, hangAfter, site1, el1, el2, ended, dump)
 	}
 	hx.Harnessf("request %q still running after %s (not blocked, no runaway recursion; ended after cancel: %v): inconclusive\n%.3000s", q, hangAfter, ended, dump)
 	return hx.Result{}, nil
+}
+
+// panicSig names a recovered panic by its first defradb frame and the kind of runtime error.
+func panicSig(text string) string {
+	first := strings.SplitN(text, "\n", 2)[0]
+	kind := "other"
+	switch {
+	case strings.Contains(first, "nil pointer dereference"):
+		kind = "nil-deref"
+	case strings.Contains(first, "index out of range"), strings.Contains(first, "slice bounds out of range"):
+		kind = "index-out-of-range"
+	case strings.Contains(first, "interface conversion"):
+		kind = "interface-conversion"
+	case strings.Contains(first, "Unclosed iterator"):
+		kind = "unclosed-iterator"
+	case strings.Contains(first, "nil map"):
+		kind = "nil-map"
+	}
+	return "C08/panic/" + hx.PanicSite(text) + "/" + kind
+}
+
+// blockedState reports whether the request goroutine is blocked, and the functions on its stack.
+func blockedState() (state, fns, dump string) {
+	buf := make([]byte, 1<<22)
+	buf = buf[:runtime.Stack(buf, true)]
+	for _, g := range strings.Split(string(buf), "\n\n") {
+		if !selfFrame.MatchString(g) {
+			continue
+		}
+		head := strings.SplitN(g, "\n", 2)[0]
+		state = "blocked"
+		if strings.Contains(head, "[running") || strings.Contains(head, "[runnable") || strings.Contains(head, "[syscall") || strings.Contains(head, "[GC ") {
+			state = "running"
+		}
+		names := []string{head}
+		for _, line := range strings.Split(g, "\n")[1:] {
+			if !strings.HasPrefix(line, "\t") {
+				if i := strings.LastIndex(line, "("); i > 0 {
+					line = line[:i]
+				}
+				names = append(names, line)
+			}
+		}
+		return state, strings.Join(names, ";"), g
+	}
+	return "gone", "", ""
 }
 
 var elidedRe = regexp.MustCompile(`\.\.\.(\d+) frames elided\.\.\.`)
@@ -700,7 +809,107 @@ type reqRun struct {
 	req   string
 	class string
 	fresh bool
+	child bool
 }
+
+const sigFragmentCycle = "C08/crash/stack-overflow/graphql-go.(*overlappingFieldsCanBeMergedRule).collectConflictsBetweenFieldsAndFragment"
+
+// fatalRisk names the listed finding whose trigger shape the request has ("" if none): a fragment
+// spread (a fragment cycle overflows the stack inside request validation) or a commits selection
+// given both cid and fieldName (unbounded recursion in dagScanNode.Next).
+func fatalRisk(q string) string {
+	switch {
+	case strings.Contains(q, "..."):
+		return sigFragmentCycle
+	case commitsCidFieldRe.MatchString(q):
+		return sigCommitsRecursion
+	}
+	return ""
+}
+
+type childOut struct {
+	Class string `json:"class"`
+	Sig   string `json:"sig,omitempty"`
+	Msg   string `json:"msg,omitempty"`
+}
+
+const childMarker = "C08CHILD:"
+
+// TestC08Child is the body of the child process: one request on a fresh fixture.
+func TestC08Child(t *testing.T) {
+	q, ok := os.LookupEnv("C08_CHILD_REQ")
+	if !ok {
+		t.Skip("child-process entry point")
+	}
+	hangAfter = time.Duration(hx.EnvInt("C08_CHILD_HANG_S", 8)) * time.Second
+	fx := newFixture()
+	res, f := execGuarded(fx, q)
+	out := childOut{Class: classify(res)}
+	if f != nil {
+		out.Class, out.Sig, out.Msg = "panic-or-hang", f.Sig, f.Msg
+	}
+	raw, _ := json.Marshal(out)
+	fmt.Printf("\n%s%s\n", childMarker, raw)
+	os.Exit(0) // at once: a runaway request goroutine may still be eating the stack
+}
+
+var crashFrameRe = regexp.MustCompile(`(?m)^(github\.com/[^\s(]+(?:\(\*[^)]+\))?[^\s(]*)\(`)
+
+// runInChild executes the request in a child process and reads its verdict; a child that dies of
+// a fatal runtime error is a violation (the request killed the database process).
+func runInChild(q string) (string, *hx.Failure) {
+	cmd := exec.Command(os.Args[0], "-test.run", "^TestC08Child$", "-test.timeout", "120s")
+	env := []string{}
+	for _, e := range os.Environ() {
+		if !strings.HasPrefix(e, "VERIF_STATS=") && !strings.HasPrefix(e, "VERIF_REPLAY=") {
+			env = append(env, e)
+		}
+	}
+	cmd.Env = append(env, "C08_CHILD_REQ="+q)
+	var buf bytes.Buffer
+	cmd.Stdout, cmd.Stderr = &buf, &buf
+	if err := cmd.Start(); err != nil {
+		hx.Harnessf("cannot start child process: %v", err)
+	}
+	done := make(chan error, 1)
+	go func() { done <- cmd.Wait() }()
+	select {
+	case <-done:
+	case <-time.After(150 * time.Second):
+		_ = cmd.Process.Kill()
+		<-done
+		hx.Harnessf("child process for %q did not end in 150 s", q)
+	}
+	text := buf.String()
+	if i := strings.LastIndex(text, childMarker); i >= 0 {
+		line := strings.SplitN(text[i+len(childMarker):], "\n", 2)[0]
+		var out childOut
+		if err := json.Unmarshal([]byte(line), &out); err != nil {
+			hx.Harnessf("child verdict unreadable: %q", line)
+		}
+		if out.Sig != "" {
+			return out.Class, &hx.Failure{Sig: out.Sig, Msg: out.Msg}
+		}
+		return out.Class, nil
+	}
+	if i := strings.Index(text, "fatal error: "); i >= 0 {
+		kind := strings.SplitN(text[i+len("fatal error: "):], "\n", 2)[0]
+		site := "unknown"
+		if j := strings.Index(text[i:], "[running]:"); j >= 0 {
+			if m := crashFrameRe.FindStringSubmatch(text[i+j:]); m != nil {
+				site = m[1]
+				for _, pre := range []string{"github.com/sourcenetwork/defradb/", "github.com/sourcenetwork/"} {
+					site = strings.TrimPrefix(site, pre)
+				}
+			}
+		}
+		return "crash", hx.Failf("C08/crash/"+strings.ReplaceAll(kind, " ", "-")+"/"+site, "request %q killed the process: fatal error: %s\n%.2500s", q, kind, text[i:])
+	}
+	hx.Harnessf("child process for %q ended without verdict: %.2000s", q, text)
+	return "", nil
+}
+
+const sigDeleteHang = "C08/hang/blocked/internal/core/crdt.DocComposite.deleteWithPrefix"
 
 const sigCommitsRecursion = "C08/hang/unbounded-recursion/internal/planner.(*dagScanNode).Next"
 
@@ -713,24 +922,41 @@ func runReq(c ReqCase) (*reqRun, *hx.Failure) {
 	fx := sharedFixture()
 	q := c.render(fx)
 	r := &reqRun{req: q}
-	if !c.Observe && rec.IsKnown(sigCommitsRecursion) && commitsCidFieldRe.MatchString(q) {
-		// A request that runs into the listed unbounded recursion cannot be stopped and ends in a fatal
-		// stack overflow of the process: while that finding is listed its trigger is not executed
-		// (observed once per run by observeKnownHang instead).
-		r.class = "skipped(known-hang-trigger)"
-		return r, nil
+	closeFresh := true
+	if kind := fatalRisk(q); kind != "" {
+		// Requests of these shapes can end in a fatal stack overflow, which no recover() survives: they
+		// are executed alone in a child process. While the corresponding finding is listed as known,
+		// nine cases in ten (Avoid) are not executed at all, because each observation costs seconds.
+		if c.Avoid && !c.Observe && rec.IsKnown(kind) {
+			r.class = "skipped(known-fatal-trigger)"
+			return r, nil
+		}
+		r.child = true
+		var f *hx.Failure
+		r.class, f = runInChild(q)
+		return r, f
 	}
 	if strings.Contains(q, "mutation") {
 		// the request may write: it gets its own database (same content, same ids)
 		fx = newFixture()
-		defer fx.n.Close()
+		defer func() {
+			if closeFresh {
+				fx.n.Close()
+			}
+		}()
 		r.fresh = true
 		q = c.render(fx)
 		r.req = q
 	}
 	res, f := execGuarded(fx, q)
 	if f != nil {
-		if !r.fresh {
+		hang := strings.HasPrefix(f.Sig, "C08/hang/")
+		switch {
+		case hang && r.fresh:
+			closeFresh = false // abandoned: after a hang Close may block too
+		case hang:
+			abandonSharedFixture()
+		case !r.fresh:
 			dropSharedFixture()
 		}
 		r.class = "panic-or-hang"
@@ -761,27 +987,14 @@ func drawReq(t *rapid.T) ReqCase {
 		c.Q = &q
 	}
 	c.Muts = drawMuts(t)
+	// the hang at delete commits costs several seconds per observation: while it is listed as a known
+	// finding nine cases in ten stay away from it
+	c.Avoid = rapid.IntRange(0, 9).Draw(t, "avoid") != 0
 	return c
-}
-
-// observeKnownHang runs the trigger of the unbounded recursion once, last in the process (the
-// runaway goroutine cannot be stopped; the process exits right after).
-func observeKnownHang(t *testing.T) {
-	old := hangAfter
-	hangAfter = 4 * time.Second
-	defer func() { hangAfter = old }()
-	fx := sharedFixture()
-	c := ReqCase{Tpl: "raw", Raw: fmt.Sprintf(`query { commits(cid: %q, fieldName: "nope") { cid } }`, fx.cids[0]), Observe: true}
-	_, f := runReq(c)
-	rec.Eval(c, true, "req", "req:observe-known-hang")
-	rec.Check(t, AnyCase{Req: &c}, f)
 }
 
 func TestC08Requests(t *testing.T) {
 	defer dropSharedFixture()
-	if hx.EnvInt("VERIF_SHARD", 0) == 0 && os.Getenv("VERIF_COLLECT") == "" {
-		defer observeKnownHang(t)
-	}
 	rapid.Check(t, func(t *rapid.T) {
 		c := drawReq(t)
 		var r *reqRun
@@ -797,6 +1010,9 @@ func TestC08Requests(t *testing.T) {
 			nt = r.class == "data" || r.class == "planner-error"
 			if r.fresh {
 				labels = append(labels, "req:may-write(fresh-db)")
+			}
+			if r.child {
+				labels = append(labels, "req:run-in-child-process")
 			}
 		}
 		rec.Eval(c, nt, labels...)
